@@ -214,9 +214,9 @@ func c11BodyLength(c *Ctx) {
 			return m(a.X, a.Y) || m(a.Y, a.X)
 		}
 		okShort := false
-		for _, r := range returnsUnder(f, nil) {
-			if len(r.Results) == 2 && allVals(phiLeaves(r.Results[1]), isNilConst) {
-				okShort = w.requires(f, r, short, true) || w.requires(f, r, short, false)
+		for _, x := range resultExits(f, 1) {
+			if allVals(phiLeaves(x.Val), isNilConst) {
+				okShort = w.requires(f, x.At, short, true) || w.requires(f, x.At, short, false)
 			}
 		}
 		c.check(okShort, rule, "ParseMessage/short-body-is-error", w.ipos(read), "a body shorter than declared is an error", "success is returned without testing that the full declared body arrived")
